@@ -11,6 +11,7 @@ from vf.world import World, Violation, advance, settle
 from vf.boot import loop
 
 import gevent
+import gevent.event
 from scales.timer_queue import TimerQueue
 
 ID = 'C10'
@@ -19,7 +20,7 @@ RULE = ('Hypothesis-generated histories of schedule(delta, action kind) / schedu
         'cancel(i) / advance(dt) ops (<= 50 ops; deadlines from 20 units in the past to 6000 units - more than five minutes in three of the four modes - ahead) for resolutions 0.25, 1 (times exact binary '
         'fractions), 0.01 (1 ms grid, 1 ms tolerance) and 0, interpreted against the real '
         'TimerQueue on a virtual clock and against a reference schedule; actions may themselves '
-        'schedule or cancel; one plan in 16 starts after ~65500 earlier Schedule calls on the same queue. Non-trivial = a new earliest deadline was scheduled while the worker '
+        'schedule or cancel; one plan in 16 starts after ~65500 earlier Schedule calls on the same queue, one in 14 with 3 or 120 actions that stay blocked. Non-trivial = a new earliest deadline was scheduled while the worker '
         'slept on a later one, or the current head was cancelled, or two pending deadlines tie '
         'after rounding. distinct = distinct non-trivial plans.')
 ASSUMPTIONS = [
@@ -68,6 +69,8 @@ def strategy(tier):
       'resolution': st.sampled_from(sorted(MODES)),
       # a long-lived queue: this many earlier Schedule calls (each cancelled at once) before the history starts
       'churn': st.sampled_from([0] * 30 + [65500, 65530]),
+      # this many actions that block (wait for something) are started first and stay blocked for the whole history
+      'blockers': st.sampled_from([0] * 12 + [3, 120]),
       'ops': st.lists(op, max_size=50 if tier == 'quick' else 150),
   })
 
@@ -151,6 +154,8 @@ def execute(plan):
           loop._now += kind[1] * unit
           busy_spans.append((b0, loop.now(), e.id))
           flags_busy.add(1)
+        elif kind[0] == 'block':
+          gate.wait()                                      # a blocked action holds up nobody else
         elif kind[0] == 'raise':
           raise RuntimeError('action %d fails' % e.id)     # must not disturb the worker or other actions
 
@@ -219,6 +224,16 @@ def execute(plan):
             raise Violation(ID, 'order', 'action %d (rounded %r, seq %d) ran after action %d (rounded %r, seq %d)' % (
                 first.id, first.R_lo, first.id, second.id, second.R_lo, second.id))
 
+    gate = gevent.event.Event()
+    World.current.cleanups.append(gate.set)
+    if plan.get('blockers'):
+      for _ in range(plan['blockers']):
+        do_schedule(now_u() + 1, ['block'])
+      epoch[0] += 1
+      advance(2 * unit + (res_u or 1) * unit)
+      epoch[0] += 1
+      check()
+      flags_busy.add(4)
     if plan.get('churn'):
       for _ in range(plan['churn']):
         q.Schedule(EPOCH - 1, _noop)()
@@ -265,12 +280,16 @@ def execute(plan):
         break
     else:
       raise Violation(ID, 'not-run', 'actions keep being scheduled after 4 teardown rounds')
+    gate.set()
+    settle()
     q._worker.kill(block=False)
   classes = ['res=' + plan['resolution']] + sorted(flags)
   if any(e.kind[0] != 'plain' and e.runs for e in entries):
     classes.append('action_schedules_or_cancels')
   if 1 in flags_busy:
     classes.append('callback_kept_the_loop_busy')
+  if 4 in flags_busy:
+    classes.append('blocked_actions=%d' % plan['blockers'])
   if 3 in flags_busy:
     classes.append('scheduled_from_another_greenlet')
   if 2 in flags_busy:
